@@ -36,7 +36,28 @@ thread_local! {
     static ME: RefCell<Option<(Arc<Sched>, usize)>> = RefCell::new(None);
 }
 
+thread_local! {
+    static MUTED: std::cell::Cell<bool> = std::cell::Cell::new(false);
+}
+
+/// Runs `f` on the calling (managed) thread without parking at the yield points inside it: the whole of `f`
+/// belongs to the grant that is running.  For streams whose step granularity is coarser than the points of a
+/// component they call into (e.g. C19's registration races take a histogram `record` as one step).
+pub fn muted<R>(f: impl FnOnce() -> R) -> R {
+    struct Restore(bool);
+    impl Drop for Restore {
+        fn drop(&mut self) {
+            MUTED.with(|m| m.set(self.0));
+        }
+    }
+    let _g = Restore(MUTED.with(|m| m.replace(true)));
+    f()
+}
+
 fn hook(id: &'static str) {
+    if MUTED.with(|m| m.get()) {
+        return;
+    }
     let me = ME.with(|m| m.borrow().clone());
     if let Some((s, t)) = me {
         s.park(t, id);
